@@ -71,6 +71,15 @@ def r2_flatten(rule, root=None):
     else:
         rule.bad("wrap", "remap_affine must wrap a non-affine tree as RemapAffine { target: self, mat }", A.where(fn))
     fn = A.find_fn(TREE, "remap_xyz", self_ty="Tree", root=root)
+    # every way out of remap_xyz / remap_affine wraps the tree: a shortcut that returns `self` unchanged for
+    # "identity-looking" arguments drops a remap
+    for fname in ("remap_xyz", "remap_affine"):
+        f_ = A.find_fn(TREE, fname, self_ty="Tree", root=root)
+        early = list(A.find(f_["body"], "Return"))
+        if early:
+            rule.bad("%s|early" % fname, "Tree::%s returns `%s` early under `%s`: every result must be the remapped wrapper" % (fname, A.unparse(early[0].get("e") or {})[:40], " && ".join(A.enclosing_conds(f_["body"], early[0]) or [])[:90]), A.where(f_, early[0]))
+        else:
+            rule.ok("Tree::%s has a single exit, the wrapper it builds" % fname)
     st = [s for s in A.find(fn["body"], "Struct")]
     f = {x["name"]: A.ftxt(x["e"]) for x in st[0]["fields"]} if st else {}
     if f == {"target": "self.0.clone()", "x": "x.0", "y": "y.0", "z": "z.0"}:
@@ -168,7 +177,8 @@ def r4_cache_keys(rule, root=None):
     key = "(*%s.last().unwrap(),Arc::as_ptr(t))" % axes_n
     n = 0
     for c in A.find(fn["body"], "MethodCall"):
-        if A.ident(A.strip(c["recv"])) == "seen" and c["method"] in ("get", "insert", "entry", "contains_key"):
+        # any table looked up by node identity (whatever it is called): what a node imports to depends on the frame
+        if c["method"] in ("get", "insert", "entry", "contains_key", "get_mut", "remove") and c["args"] and "Arc::as_ptr(" in A.unparse(c["args"][0]).replace(" ", ""):
             k = A.ftxt(A.strip(c["args"][0])).lstrip("&")
             n += 1
             if k == key:
@@ -343,7 +353,7 @@ from .. import factrules as FR
 def run(ctx):
     r = ctx.rule("R1", "RemapAffine / RemapAxes nodes are constructed only by the flattening builder API", 2)
     ctx.guarded(r, r1_who_constructs)
-    r = ctx.rule("R2", "consecutive affine remaps flatten as existing * new onto the inner target", 3)
+    r = ctx.rule("R2", "consecutive affine remaps flatten as existing * new onto the inner target", 5)
     ctx.guarded(r, r2_flatten)
     r = ctx.rule("R3", "importer frames: every push is paired with its pop, pushed so that the target runs inside the frame", 7)
     ctx.guarded(r, r3_frames)
